@@ -32,5 +32,13 @@ CORPUS = [
       "            if torch.any(torch.isnan(log_p)):\n                self.rescale = True\n                log_p = calculate_treelikelihood_discrete_safe(", expect=[('C03.G', 'calculate_with_tip_partials::infinite-result-is-recomputed-rescaled')]),
     T('c03-tipstates-uses-partials-kernel', "            if torch.any(torch.isinf(log_p)):\n                self.rescale = True\n                log_p = calculate_treelikelihood_tip_states_discrete_rescaled(",
       "            if torch.any(torch.isinf(log_p)):\n                self.rescale = True\n                log_p = calculate_treelikelihood_discrete_rescaled(", expect=[('C03.G', 'calculate_with_tip_states::kernel-kind')]),
+    T('c03-switch-needs-all-infinite', "            if torch.any(torch.isinf(log_p)):\n                self.rescale = True\n                log_p = calculate_treelikelihood_discrete_safe(",
+      "            if torch.all(torch.isinf(log_p)):\n                self.rescale = True\n                log_p = calculate_treelikelihood_discrete_safe(", expect=[('C03.G', 'calculate_with_tip_partials::switches-when-any-element-is-infinite')]),
+    T('c03-switch-any-finite', "            if torch.any(torch.isinf(log_p)):\n                self.rescale = True\n                log_p = calculate_treelikelihood_tip_states_discrete_rescaled(",
+      "            if not torch.isinf(log_p).logical_not().any():\n                self.rescale = True\n                log_p = calculate_treelikelihood_tip_states_discrete_rescaled(", expect=[('C03.G', 'calculate_with_tip_states::')]),
+    T('c03-benign-switch-method-form', "            if torch.any(torch.isinf(log_p)):\n                self.rescale = True\n                log_p = calculate_treelikelihood_discrete_safe(",
+      "            if torch.isinf(log_p).any():\n                self.rescale = True\n                log_p = calculate_treelikelihood_discrete_safe(", benign=True),
+    T('c03-benign-switch-not-all-finite', "            if torch.any(torch.isinf(log_p)):\n                self.rescale = True\n                log_p = calculate_treelikelihood_tip_states_discrete_rescaled(",
+      "            if not torch.isfinite(log_p).all() and torch.any(torch.isinf(log_p)):\n                self.rescale = True\n                log_p = calculate_treelikelihood_tip_states_discrete_rescaled(", benign=True),
     Mut('c03-benign-rename-scaler', TL, R, 'scalers.append(scaler)', 'scalers.append(scaler)\nn_scaled = len(scalers)', benign=True),
 ]
